@@ -1,0 +1,26 @@
+//go:build verif
+
+// Purpose: Register the hidden verif-rpc subcommand in instrumented builds.
+// Exports: none.
+// Role: CLI wiring for the verification RPC.
+// Invariants: Compiled only with -tags verif.
+// Notes: See internal/ergo/verif_rpc.go.
+package main
+
+import (
+	"os"
+
+	"github.com/sandover/ergo/internal/ergo"
+	"github.com/spf13/cobra"
+)
+
+func init() {
+	rootCmd.AddCommand(&cobra.Command{
+		Use:    "verif-rpc",
+		Hidden: true,
+		Args:   cobra.NoArgs,
+		RunE: func(cmd *cobra.Command, args []string) error {
+			return ergo.VerifRPC(os.Stdin, os.Stdout)
+		},
+	})
+}
